@@ -24,6 +24,7 @@ PROBE_FINDINGS = [
     ("C04-nested-recovered-panic-swallows-outer", "nested-recovered", [9]),
     ("C04-goexit-during-panic", "goexit-in-deferred", [15]),
     ("C04-panic-nil", "panic-nil", [22]),
+    ("C04-block-order-replay", "loop-branch-then-defer", [26, 27, 28]),
 ]
 
 PANIC_RE = re.compile(r"^\s*panic: (.*)$")
